@@ -126,10 +126,12 @@ check(
     "fault_enumeration",
     "ParallelMap is driven through Hypothesis-generated histories (np 1..5, repeated calls on one map, up to 10 tasks) "
     "in which the harness owns the completion order (tasks block on tokens released in the generated order) and injects "
-    "0..2 failing tasks; every single-fault position for n<=8 tasks is enumerated for np 2 and 3. Oracle: result list == "
-    "serial map position by position, an exception when a task fails, never a deadlock (proved by a dead worker while the "
-    "call is still waiting, not by a time-out), later calls unaffected. Grid level: number_of_processors 1/2/5 give "
-    "bit-identical files.",
+    "0..2 failing tasks raising one of five exception kinds (plain, class local to a function, func_timeout.FunctionTimedOut, "
+    "unpicklable / un-unpicklable payloads); every single-fault position for n<=8 tasks is enumerated for np 2 and 3. Oracle: "
+    "result list == serial map position by position, the exception of the first failing task when a task fails, never a "
+    "deadlock (proved by a dead worker while the call is still waiting, or by every task having announced its end while all "
+    "workers use no CPU time for 15 s, not by a time-out of work in progress), later calls unaffected. Grid level: "
+    "number_of_processors 1/2/5 give bit-identical files.",
     "Schedule space covered at task-completion granularity; instruction-level interleavings inside multiprocessing are "
     "not controlled. Wall-clock caps only classify a case as inconclusive.",
     "schedule-controlled PBT with fault injection (Hypothesis histories) + exhaustive single-fault enumeration + differential grid comparison",
